@@ -87,7 +87,7 @@ def run(ctx):
             vlib.report_violation(ctx, dict(kind="engine-fatal", state=req["_st"], statements=[q.get("raw") for q in req["qs"]][:5], detail=resp.get("viol")),
                                   signature="fatal")
             return
-        if resp.get("setup"):
+        if resp.get("setup") and resp.get("setup") != "PANIC":
             raise vlib.Undecided("sem harness setup: %s" % resp["setup"])
         for r in resp.get("res") or []:
             k = "panic" if r.get("panic") else "hang" if r.get("hang") else "error" if r.get("err") else "ok"
